@@ -281,8 +281,9 @@ RESPELLINGS: list[tuple[str, list[tuple[str, str]]]] = [
 
 
 def _comments_variant(text: str) -> str:
-    out = "/* leading block\n   comment */\n// line comment\n" + text
-    out = out.replace("{\n", "{ // after brace\n").replace(";\n", "; /* c */\n").replace("(16,", "( /* in args */ 16,").replace("== 3", "== /**/ 3")
+    # block comments by the shape of their end (no, one, two, three stars before the slash), with stars and slashes inside
+    out = "/* leading block\n   comment */\n// line comment\n/** doc style **/\n/***/ /* a * b / c ***/ /* // */\n" + text
+    out = out.replace("{\n", "{ // after brace\n").replace(";\n", "; /* c */\n").replace("(16,", "( /* in args */ 16,").replace("== 3", "== /**/ 3").replace("$A = 8;", "/** before **/ $A = 8; /* * / **/")
     return out + "// trailing line comment without newline"
 
 
